@@ -49,6 +49,7 @@ class Contract:
             elif k.startswith("hint_"):
                 self.hints[k[5:]] = _fn(v)
         self.pure = bool(d.get("pure", False))
+        self.functional = bool(d.get("functional", False))  # result is a deterministic function of the arguments
         self.ghost_yield = d.get("ghost_yield")  # Ty of yielded values for generators
         self.uses = list(d.get("uses", []))
         self.notes = d.get("notes", "")
@@ -97,11 +98,12 @@ class Spec:
         return self.fn(*a, **k)
 
 
-def spec(fn=None, *, recursive=False, uninterpreted=False):
+def spec(fn=None, *, recursive=False, uninterpreted=False, axiom=None):
     """uninterpreted=True: the SMT reading is an uninterpreted function of the (annotated) argument sorts;
     the Python body is only the *native* reading used in replays (e.g. `return v.source_signature()`)."""
     def deco(f):
         s = Spec(f, recursive, uninterpreted)
+        s.axiom = axiom   # axiom(params..., result) -> bool: the function's defining property (must determine it)
         SPECS[f.__name__] = s
         return s
     return deco(fn) if fn is not None else deco
@@ -169,6 +171,8 @@ def rec_class(key, **fields):
     from . import exec as X
     cls = resolve_key(key)[0]
     real = getattr(cls, "_fields", None)
+    if real is None and hasattr(cls, "__dataclass_fields__"):
+        real = tuple(cls.__dataclass_fields__)
     if real is not None and tuple(real) != tuple(fields):
         raise RuntimeError(f"stale record declaration for {key}: real fields {real}, sidecar {tuple(fields)}")
     t = T.TRec(cls.__name__, fields, cls=key)
